@@ -692,10 +692,51 @@ def _is_call_of(h: Helper, call: ast.Call, ctx_cls: Optional[str], ctx_rel: str,
     return False
 
 
+def _plain_local_annotations(trees: Dict[str, ast.Module]) -> int:
+    """`x: T = v` inside a function is the assignment `x = v` (the annotation has no run-time effect on a local); a bare
+    `x: T` is nothing.  Class bodies (dataclass fields) and module level are left alone."""
+    n = 0
+
+    class T(ast.NodeTransformer):
+        depth = 0
+
+        def visit_FunctionDef(self, node):
+            self.depth += 1
+            self.generic_visit(node)
+            self.depth -= 1
+            if not node.body:
+                node.body = [ast.copy_location(ast.Pass(), node)]
+            return node
+        visit_AsyncFunctionDef = visit_FunctionDef
+
+        def visit_ClassDef(self, node):
+            saved, self.depth = self.depth, 0
+            self.generic_visit(node)
+            self.depth = saved
+            return node
+
+        def visit_AnnAssign(self, node):
+            nonlocal n
+            if self.depth and isinstance(node.target, ast.Name):
+                n += 1
+                if node.value is None:
+                    return ast.copy_location(ast.Pass(), node)
+                new = ast.Assign(targets=[node.target], value=node.value)
+                return ast.fix_missing_locations(ast.copy_location(new, node))
+            return node
+
+    for tree in trees.values():
+        T().visit(tree)
+    return n
+
+
 def normalise(trees: Dict[str, ast.Module], inventory: Optional[Set[str]] = None) -> List[str]:
     """Inline unknown functions in place.  Returns report lines."""
     inv = load_inventory() if inventory is None else inventory
     report: List[str] = []
+    n_ann = _plain_local_annotations(trees)
+    if n_ann:
+        report.append(f"{n_ann} annotated local assignment(s) `x: T = v` read as `x = v`")
     dotted = {}
     for rel in trees:
         d = rel[:-3].replace("/", ".")
